@@ -748,15 +748,12 @@ func generate(R *core.Rand, thorough bool, emit func(class string, nontrivial bo
 						}
 					}
 				} else {
-					// two different contexts, a third one half of the time
+					// one context, a second different one half of the time
 					k := R.Intn(len(ctxs))
-					k2 := (k + 1 + R.Intn(len(ctxs)-1)) % len(ctxs)
-					picks = append(picks, recipe{vi, ctxs[k], R.Intn(2), m.name, a}, recipe{vi, ctxs[k2], R.Intn(2), m.name, a})
+					picks = append(picks, recipe{vi, ctxs[k], R.Intn(2), m.name, a})
 					if R.Chance(1, 2) {
-						k3 := R.Intn(len(ctxs))
-						if k3 != k && k3 != k2 {
-							picks = append(picks, recipe{vi, ctxs[k3], R.Intn(2), m.name, a})
-						}
+						k2 := (k + 1 + R.Intn(len(ctxs)-1)) % len(ctxs)
+						picks = append(picks, recipe{vi, ctxs[k2], R.Intn(2), m.name, a})
 					}
 				}
 				if m.name != "combo" {
